@@ -536,6 +536,9 @@ func runC02(c *engine.Ctx) {
 		})
 	}
 	c.Floor(n8, 2)
+
+	// ---- R9 pooled codec recycling (shared with C01.R8): the http2http plugin family keeps the connection after Handle returns ----
+	checkRecycle(c, "R9")
 }
 
 func keysOf(m map[string]bool) []string {
